@@ -1,0 +1,105 @@
+//! Verification hook H4 (compiled only with `--cfg dmntk_verif`): read/write locks that
+//! record every acquisition and release, per thread, into a sink the harness can switch on.
+//! `model_evaluator.rs` uses these types in place of `std::sync::RwLock` under the same cfg,
+//! so every `.read()` / `.write()` on the evaluator registries is observed, wherever it is made.
+
+use std::ops::{Deref, DerefMut};
+use std::sync::atomic::{AtomicU64, Ordering};
+use std::sync::{LockResult, Mutex, PoisonError};
+
+/// One lock event: (thread number, per-thread sequence number, operation, lock name).
+pub type LockEvent = (u64, u64, &'static str, &'static str);
+
+static SINK: Mutex<Option<Vec<LockEvent>>> = Mutex::new(None);
+static NEXT_THREAD: AtomicU64 = AtomicU64::new(1);
+
+thread_local! {
+  static THREAD: (u64, std::cell::Cell<u64>) = (NEXT_THREAD.fetch_add(1, Ordering::SeqCst), std::cell::Cell::new(0));
+}
+
+/// Starts recording lock events.
+pub fn lock_trace_start() {
+  *SINK.lock().unwrap_or_else(PoisonError::into_inner) = Some(vec![]);
+}
+
+/// Stops recording and returns the events recorded since the start.
+pub fn lock_trace_take() -> Vec<LockEvent> {
+  SINK.lock().unwrap_or_else(PoisonError::into_inner).take().unwrap_or_default()
+}
+
+fn emit(op: &'static str, lock: &'static str) {
+  let mut sink = SINK.lock().unwrap_or_else(PoisonError::into_inner);
+  if let Some(events) = sink.as_mut() {
+    let (thread, seq) = THREAD.with(|t| {
+      t.1.set(t.1.get() + 1);
+      (t.0, t.1.get())
+    });
+    events.push((thread, seq, op, lock));
+  }
+}
+
+#[derive(Default)]
+pub struct RwLock<T>(std::sync::RwLock<T>);
+
+pub struct RwLockReadGuard<'a, T>(std::sync::RwLockReadGuard<'a, T>, &'static str);
+
+pub struct RwLockWriteGuard<'a, T>(std::sync::RwLockWriteGuard<'a, T>, &'static str);
+
+impl<T> RwLock<T> {
+  fn name() -> &'static str {
+    std::any::type_name::<T>().rsplit("::").next().unwrap_or("?")
+  }
+  pub fn read(&self) -> LockResult<RwLockReadGuard<'_, T>> {
+    emit("want-read", Self::name());
+    let result = self.0.read();
+    emit("read", Self::name());
+    match result {
+      Ok(guard) => Ok(RwLockReadGuard(guard, Self::name())),
+      Err(e) => Err(PoisonError::new(RwLockReadGuard(e.into_inner(), Self::name()))),
+    }
+  }
+  pub fn write(&self) -> LockResult<RwLockWriteGuard<'_, T>> {
+    emit("want-write", Self::name());
+    let result = self.0.write();
+    emit("write", Self::name());
+    match result {
+      Ok(guard) => Ok(RwLockWriteGuard(guard, Self::name())),
+      Err(e) => Err(PoisonError::new(RwLockWriteGuard(e.into_inner(), Self::name()))),
+    }
+  }
+  pub fn is_poisoned(&self) -> bool {
+    self.0.is_poisoned()
+  }
+}
+
+impl<T> Deref for RwLockReadGuard<'_, T> {
+  type Target = T;
+  fn deref(&self) -> &T {
+    &self.0
+  }
+}
+
+impl<T> Drop for RwLockReadGuard<'_, T> {
+  fn drop(&mut self) {
+    emit("release", self.1);
+  }
+}
+
+impl<T> Deref for RwLockWriteGuard<'_, T> {
+  type Target = T;
+  fn deref(&self) -> &T {
+    &self.0
+  }
+}
+
+impl<T> DerefMut for RwLockWriteGuard<'_, T> {
+  fn deref_mut(&mut self) -> &mut T {
+    &mut self.0
+  }
+}
+
+impl<T> Drop for RwLockWriteGuard<'_, T> {
+  fn drop(&mut self) {
+    emit("release", self.1);
+  }
+}
